@@ -57,7 +57,13 @@ func ParseProgram(fsys fs.FS) (*ast.Tree, error) {
 			if last == 0 {
 				return nil, errors.New("cannot find main package")
 			}
-			path := imports[last-1].Tree.Path
+			// The importing package is the last parsed package that precedes
+			// n; the not yet parsed ones are imported by the same package.
+			i := last - 1
+			for imports[i].Tree == nil {
+				i--
+			}
+			path := imports[i].Tree.Path
 			return nil, &SyntaxError{path, *n.Position, fmt.Sprintf("cannot find package %q", n.Path)}
 		}
 		trees[n.Path] = n.Tree
